@@ -214,12 +214,13 @@ class Circuit:
         await asyncio.wait(
             [asyncio.create_task(self._init_done.wait()), self._simtask],
             return_when=asyncio.FIRST_COMPLETED)
-        if self._simtask.done():
-            if self._simtask.cancelled():
+        # after an error the task may be still busy with the cleanup
+        if self._error is not None or self._simtask.done():
+            if isinstance(self._error, asyncio.CancelledError):
                 msg = "The simulation task is finished"
             else:
                 # normal simtask exit is not possible
-                msg = f"The simulation task failed with error: {self._simtask.exception()}"
+                msg = f"The simulation task failed with error: {self._error}"
             raise EdzedInvalidState(msg)
 
     def check_not_finalized(self) -> None:
